@@ -21,7 +21,7 @@ func init() {
 	}, CommonAssumptions...)
 }
 
-var c19Names = []string{"a", "b", "c", "d", "e", "ab", "Z", "é", "a b", "0", "a\"", "a#", "x<y", "x=y", "a\\b", "\u2028"}
+var c19Names = []string{"a", "b", "c", "d", "e", "ab", "Z", "A", "Ab", "aB", "É", "a ", "e\u0301", "é", "a b", "0", "a\"", "a#", "x<y", "x=y", "a\\b", "\u2028"}
 
 type c19gen struct {
 	arena   []string // PropertyOrder / Required lists are sub-slices of one array: each has spare capacity that runs into the next list
@@ -48,6 +48,14 @@ func (g *c19gen) order(props map[string]*jsonschema.Schema) []string {
 	case 5: // superset with absent names
 		o := subsetShuffled(c, names, len(names))
 		extra := []string{"zz", "nope", "a0"}
+		// names that are no property but are close to one: another letter case, surrounding space
+		for _, n := range names {
+			for _, v := range []string{strings.ToUpper(n), strings.ToLower(n), " " + n, n + " "} {
+				if _, ok := props[v]; !ok && c.W(4) == 0 {
+					extra = append(extra, v)
+				}
+			}
+		}
 		for _, e := range extra {
 			if c.W(2) == 0 {
 				pos := c.W(len(o) + 1)
